@@ -351,3 +351,7 @@ def run(ctx, rep):
     rep.exhaustive = True
     rep.exhaustive_note = (f"lattice {{0..3}}^n, n<={nmax}: bsi, argsort_k (all k), find_pbest_id, minmax_scale; all draw "
                            f"outcomes: random_sample n<={ctx.pick(4,5)}, tournament n<={ctx.pick(3,4)}, sattolo n<={ctx.pick(4,5)} on the u grid")
+
+
+def replay(ctx, rp):
+    return None      # generic replay of harness/main.py
